@@ -11,7 +11,8 @@
  *   H<tag>:<hexhdr> handler entered        I<ok>:<v|-> int reader        L<ok>:<bits|-> float/double reader
  *   B<ok>:<v|-> bool   C<ok>:<tag|-> choice   N<ok>:<special>:<tag>:<bits>:<unit>:<base> number
  *   Y<ok>:<off>:<hex> characters / block     X<ok>:<hex>:<nul> copied text     A<ok>:<v,v..> array
- *   G<tag>   U<ok>:<n,n..> command numbers   E<code> error callback
+ *   G<tag>   U<ok>:<n,n..> command numbers   E<code> error callback   Z reset callback (*RST)
+ *   Q<hex4> service request (control callback SCPI_CTRL_SRQ with this value), after W / F of the call
  *   W<hex> bytes written during the call   F<n> flushes   R<0|1> return value of the call
  *   at the end: D<code>:<hextext|N>,... queue drained with SCPI_ErrorPop   M<hex> unconsumed remainder
  *               S<regs> registers */
@@ -19,7 +20,7 @@
 #include <math.h>
 
 #define MAXOPS 200
-#define MAXCMDS 24
+#define MAXCMDS 40
 typedef struct { char name[4]; long long a[4]; unsigned long long u; unsigned char data[600]; size_t dlen; int isnull; } op_t;
 typedef struct { char pattern[96]; int tag; op_t ops[MAXOPS]; int nops; } hcmd_t;
 typedef struct { hcmd_t cmds[MAXCMDS]; int n; scpi_command_t table[MAXCMDS + 1]; } table_t;
@@ -32,6 +33,18 @@ static const scpi_choice_def_t choice0[] = { {"BUS", 5}, {"IMMediate", 6}, {"EXT
 static const scpi_choice_def_t choice1[] = { {"ON", 1}, {"OFF", 0}, {"AUTO", 2}, SCPI_CHOICE_LIST_END };
 
 static void ev_hex(const void *p, size_t n) { h_hex(EV, p, n); }
+
+/* the library's own handlers, script op bI,<name> */
+static const struct { const char *name; scpi_result_t (*fn)(scpi_t *); } builtins[] = {
+    {"CLS", SCPI_CoreCls}, {"ESE", SCPI_CoreEse}, {"ESEQ", SCPI_CoreEseQ}, {"ESRQ", SCPI_CoreEsrQ}, {"IDNQ", SCPI_CoreIdnQ},
+    {"OPC", SCPI_CoreOpc}, {"OPCQ", SCPI_CoreOpcQ}, {"RST", SCPI_CoreRst}, {"SRE", SCPI_CoreSre}, {"SREQ", SCPI_CoreSreQ},
+    {"STBQ", SCPI_CoreStbQ}, {"TSTQ", SCPI_CoreTstQ}, {"WAI", SCPI_CoreWai}, {"STUB", SCPI_Stub}, {"STUBQ", SCPI_StubQ},
+    {"VERSQ", SCPI_SystemVersionQ}, {"ERRNEXTQ", SCPI_SystemErrorNextQ}, {"ERRCOUNTQ", SCPI_SystemErrorCountQ},
+    {"QCONDQ", SCPI_StatusQuestionableConditionQ}, {"QEVENQ", SCPI_StatusQuestionableEventQ},
+    {"QENABQ", SCPI_StatusQuestionableEnableQ}, {"QENAB", SCPI_StatusQuestionableEnable},
+    {"OCONDQ", SCPI_StatusOperationConditionQ}, {"OEVENQ", SCPI_StatusOperationEventQ},
+    {"OENABQ", SCPI_StatusOperationEnableQ}, {"OENAB", SCPI_StatusOperationEnable}, {"PRES", SCPI_StatusPreset},
+    {NULL, NULL} };
 
 static scpi_result_t generic_handler(scpi_t *ctx) {
     int32_t tag = SCPI_CmdTag(ctx);
@@ -115,6 +128,11 @@ static scpi_result_t generic_handler(scpi_t *ctx) {
             for (k = 0; k < 8; k++) nums[k] = -777;
             r = SCPI_CommandNumbers(ctx, nums, (size_t) n, (int32_t) o->a[1]);
             fprintf(EV, " U%d:", r ? 1 : 0); if (!n) fprintf(EV, "-"); for (k = 0; k < n; k++) fprintf(EV, "%s%d", k ? "," : "", nums[k]);
+        } else if (!strcmp(o->name, "bI")) {
+            /* the real handler; SCPI_RES_ERR ends the script with that result */
+            int k;
+            for (k = 0; builtins[k].name; k++) if (!strcmp(builtins[k].name, (char *) o->data)) break;
+            if (builtins[k].fn && builtins[k].fn(ctx) != SCPI_RES_OK) return SCPI_RES_ERR;
         } else if (!strcmp(o->name, "oF")) stop = (int) o->a[0];
         else if (!strcmp(o->name, "ret")) return o->a[0] ? SCPI_RES_OK : SCPI_RES_ERR;
         if (isreader && !ok && stop) return SCPI_RES_ERR;
@@ -137,7 +155,8 @@ static int parse_table(const char *txt, table_t *t) {
             while ((f = strtok_r(NULL, ",", &sf))) {
                 int hexarg = (!strcmp(op->name, "rT") || !strcmp(op->name, "rC") || !strcmp(op->name, "rK") || !strcmp(op->name, "rKD")) ||
                              (!strcmp(op->name, "rA") && k == 2) || (!strcmp(op->name, "eP") && k == 1);
-                if (hexarg) { if (f[0] == 'N') op->isnull = 1; op->dlen = h_unhex(f, op->data, sizeof op->data - 1); }
+                if (!strcmp(op->name, "bI") && k == 0) { snprintf((char *) op->data, sizeof op->data, "%s", f); op->dlen = strlen(f); }
+                else if (hexarg) { if (f[0] == 'N') op->isnull = 1; op->dlen = h_unhex(f, op->data, sizeof op->data - 1); }
                 else if ((!strcmp(op->name, "rI") && k == 2) || (!strcmp(op->name, "rF") && k == 1)) op->u = strtoull(f, NULL, 16);
                 else if (k < 4) op->a[k] = atoll(f);
                 k++;
@@ -154,16 +173,29 @@ static int parse_table(const char *txt, table_t *t) {
 
 static void parse_hook(scpi_t *ctx, const char *data, int len) { (void) ctx; if (EV) { fprintf(EV, " P"); ev_hex(data, (size_t)(len > 0 ? len : 0)); } }
 static int cb_error_ev(scpi_t *ctx, int_fast16_t err) { (void) ctx; fprintf(EV, " E%d", (int) err); return 0; }
+static scpi_result_t cb_reset_ev(scpi_t *ctx) { (void) ctx; fprintf(EV, " Z"); return SCPI_RES_OK; }
 
 static void feed(h_env_t *e, const char *chunk) {
-    unsigned char data[4096]; size_t n = h_unhex(chunk, data, sizeof data); scpi_bool_t r;
-    char *exact = (char *) malloc(n ? n : 1);            /* exact-size source: over-reads of the caller's data trap */
+    unsigned char data[4096]; size_t n; scpi_bool_t r; char *exact;
+    if (chunk[0] == '=' && chunk[1] == 'G') {
+        /* the instrument itself changes a register between messages: SCPI_RegSet(reg, value) */
+        unsigned reg = 0, val = 0; int i;
+        if (sscanf(chunk + 2, "%u:%x", &reg, &val) == 2 && reg < SCPI_REG_COUNT) {
+            h_env_clear_capture(e);
+            SCPI_RegSet(&e->ctx, (scpi_reg_name_t) reg, (scpi_reg_val_t) val);
+            for (i = 0; i < e->n_srq; i++) fprintf(EV, " Q%04x", e->srq[i]);
+        }
+        return;
+    }
+    n = h_unhex(chunk, data, sizeof data);
+    exact = (char *) malloc(n ? n : 1);            /* exact-size source: over-reads of the caller's data trap */
     memcpy(exact, data, n);
     h_env_clear_capture(e);
     r = SCPI_Input(&e->ctx, exact, (int) n);
     free(exact);
     if (e->out_len) { fprintf(EV, " W"); ev_hex(e->out, e->out_len); }
     if (e->flushes) fprintf(EV, " F%d", e->flushes);
+    { int i; for (i = 0; i < e->n_srq; i++) fprintf(EV, " Q%04x", e->srq[i]); }
     fprintf(EV, " R%d", r ? 1 : 0);
 }
 
@@ -199,7 +231,7 @@ static void finish(h_env_t *e) {
  * the value SCPI_Init gave it (the pushes that rebuild the queue are undone for everything but the queue); src is not touched */
 static void seed_fresh(h_env_t *dst, h_env_t *src, table_t *t, int bufsize, int qcap) {
     int k; scpi_t snap;
-    h_env_init(dst, t->table, (size_t) bufsize, qcap, 64); dst->iface.error = NULL;
+    h_env_init(dst, t->table, (size_t) bufsize, qcap, 64); dst->iface.error = NULL; dst->iface.reset = cb_reset_ev;
     snap = dst->ctx;
     for (k = 0; k < src->ctx.error_queue.count; k++) {
         scpi_error_t *qe = &src->ctx.error_queue.data[(src->ctx.error_queue.rd + k) % src->ctx.error_queue.size];
@@ -237,7 +269,7 @@ void run_parse(const char *input) {
     cur_table = t; h_parse_hook_fn = parse_hook;
     EV = open_memstream(&ev_buf, &ev_len);
     h_watchdog(20);
-    h_env_init(&e1, t->table, (size_t) bufsize, qcap, 64); e1.iface.error = cb_error_ev;
+    h_env_init(&e1, t->table, (size_t) bufsize, qcap, 64); e1.iface.error = cb_error_ev; e1.iface.reset = cb_reset_ev;
     if (mode == 0) {
         for (i = 0; i < na; i++) feed(&e1, chunksA[i]);
         finish(&e1);
@@ -245,7 +277,7 @@ void run_parse(const char *input) {
         for (i = 0; i < na; i++) feed(&e1, chunksA[i]);
         finish(&e1);
         fprintf(EV, " ||");
-        h_env_init(&e2, t->table, (size_t) bufsize, qcap, 64); e2.iface.error = cb_error_ev;
+        h_env_init(&e2, t->table, (size_t) bufsize, qcap, 64); e2.iface.error = cb_error_ev; e2.iface.reset = cb_reset_ev;
         for (i = 0; i < nb; i++) feed(&e2, chunksB[i]);
         finish(&e2);
         h_env_free(&e2);
@@ -260,7 +292,7 @@ void run_parse(const char *input) {
             sprintf(m, "%s3b%s0a", strcmp(chunksA[0], "-") ? chunksA[0] : "", strcmp(chunksB[0], "-") ? chunksB[0] : "");
             feed(&e1, m); finish(&e1);
             fprintf(EV, " ||");
-            h_env_init(&e3, t->table, (size_t) bufsize, qcap, 64); e3.iface.error = cb_error_ev;
+            h_env_init(&e3, t->table, (size_t) bufsize, qcap, 64); e3.iface.error = cb_error_ev; e3.iface.reset = cb_reset_ev;
             sprintf(m, "%s0a", strcmp(chunksA[0], "-") ? chunksA[0] : "");
             feed(&e3, m);
             seed_fresh(&e2, &e3, t, bufsize, qcap);
